@@ -47,8 +47,8 @@ def expand_payload(mode: str, length: int, seed: int, literal: bytes = b"") -> b
 
 
 @st.composite
-def address_st(draw, avoid_flag=False):
-    n = draw(st.sampled_from([1, 1, 2, 2, 3, 4]))
+def address_st(draw, avoid_flag=False, long=False):
+    n = draw(st.sampled_from([1, 1, 2, 2, 3, 4] + ([5, 6, 8] if long else [])))
     octs = [draw(st.integers(0, 127)) * 2 for _ in range(n - 1)] + [draw(st.integers(0, 127)) * 2 + 1]
     if avoid_flag:
         octs = [0x7C if o == FLAG else o for o in octs]
@@ -77,10 +77,11 @@ def payload_spec_st(draw, big=True):
 
 
 @st.composite
-def frame_spec_st(draw, big=True, header_only_weight=1):
-    """A well-formed frame specification: dict(ftype, seg, dest, src, control, info(None|bytes))."""
-    dest = draw(address_st())
-    src = draw(address_st())
+def frame_spec_st(draw, big=True, header_only_weight=1, long_addr=False):
+    """A well-formed frame specification: dict(ftype, seg, dest, src, control, info(None|bytes)).
+    long_addr: also address fields of 5..8 octets (ISO 13239 allows any extension; C02 limits itself to 1..4)."""
+    dest = draw(address_st(long=long_addr))
+    src = draw(address_st(long=long_addr))
     ftype = draw(st.sampled_from([0xA, 0xA, 0xA, 0x0, 0x7, 0xF, 0x3]))
     seg = draw(st.sampled_from([0, 0, 1]))
     control = draw(st.one_of(st.sampled_from([0x10, 0x13, 0x7E, 0x7D, 0x00, 0xFF]), st.integers(0, 255)))
@@ -238,10 +239,20 @@ noise_noflag_st = st.lists(noise_octet.filter(lambda o: o != FLAG), min_size=0, 
 @st.composite
 def defect_frame_st(draw):
     """(kind, octets): a frame with one injected defect. Octets are the un-stuffed frame contents."""
-    spec = draw(frame_spec_st(big=False, header_only_weight=2))
+    spec = draw(frame_spec_st(big=False, header_only_weight=2, long_addr=True))
     good = frame_from_spec(spec)
     hl = header_len(spec)
-    kind = draw(st.sampled_from(["bitflip", "truncate", "truncate-after-hcs", "extra", "wronglen", "wronglen", "drop-last", "swap-fcs"]))
+    kind = draw(st.sampled_from(["bitflip", "truncate", "truncate-after-hcs", "extra", "wronglen", "wronglen", "drop-last", "swap-fcs", "bad-hcs-good-fcs"]))
+    if kind == "bad-hcs-good-fcs":
+        # header check sequence wrong, but length field and FCS (recomputed over the octets as sent) are right:
+        # by C01's definition this frame IS valid
+        if spec["info"] is None:
+            kind = "wronglen"
+        else:
+            b = bytearray(good[:-2])
+            bit = draw(st.integers(0, 15))
+            b[hl - 2 + bit // 8] ^= 1 << (bit % 8)
+            return kind, bytes(b) + fcs16_octets(bytes(b))
     if kind == "bitflip":
         bit = draw(st.integers(0, len(good) * 8 - 1))
         b = bytearray(good)
